@@ -255,7 +255,7 @@ LEGS = {
 
 def check_C13(K, prop, tier, seed, t0):
     q = tier == "quick"
-    reps = [K.run_gen_leg(prop, "G-builds", dict(CFGS="U_C13", SYMS="Syms_C04", MAXLEN=3, MAXBUILDS=2 if q else 3),
+    reps = [K.run_gen_leg(prop, "G-builds", dict(CFGS="U_C13", SYMS="Syms_C04", MAXLEN=3, MAXBUILDS=3 if q else 4),
                           workers=8, threads=16, module="Gen_Cache", isolate=True)]
     return finish(K, prop, tier, seed, t0, "model_checking", reps, None, ASSUME_COMMON,
                   "all sequences of MaxBuilds cached builds over a base configuration, its one-field neighbours and three "
@@ -490,7 +490,7 @@ def check_C14(K, prop, tier, seed, t0):
         K.log("\n".join(zero)); raise K.ToolError("MC_CacheConc: an action was never taken (vacuous model)")
     K.log(f"[model] CacheConc: {mdist} distinct states, invariants and liveness hold")
     # T: sampled real schedules
-    n = 120 if q else 20000
+    n = 120 if q else 2500
     rec = os.path.join(vroot, "threads")
     p = subprocess.run([K.HARNESS, "threads", str(n), str(seed), rec, "16" if not q else "8"], env=K.base_env(), stdout=subprocess.PIPE, stderr=subprocess.PIPE, text=True, timeout=3000)
     if p.returncode != 0:
